@@ -37,7 +37,9 @@ func countExact(v, tok string) int {
 var relToks = []string{"nofollow", "noreferrer", "noopener", "nofollowx", "xnofollow", "NOFOLLOW", "noopenerx", "external", "stylesheet", "x-noreferrer", "no", "NoOpener", "noreferrer-x", "nofollow_noopener"}
 var relSeps = []string{" ", " ", "  ", "\t", "\n", "\f", "\r", " ", " ", "\u00a0", "\v", "\u2003", "\u0085"} // the last four are NOT HTML whitespace: they glue tokens together
 var hrefPool = []string{"http://example.com/", "https://a.b/c", "//cdn.x/y", "/local", "rel.html", "#f", "mailto:a@b.c", "http:/x", "http:evil.com", "javascript:alert(1)", "http://user@/p",
-	"HTTP://EXAMPLE.COM", "http://[::1]/", "https://h:8080/", "http:\\\\evil.com", "?q=http://x/", "http://é.com/", " http://padded.example/ ", "//", "///x", "http://"}
+	"HTTP://EXAMPLE.COM", "http://[::1]/", "https://h:8080/", "http:\\\\evil.com", "?q=http://x/", "http://é.com/", " http://padded.example/ ", "//", "///x", "http://",
+	// encoded slashes plus a character net/url re-encodes: re-serialisation may turn a local path into a host
+	"/%2Fevil.com/^", "/%2fevil.com/\u00e9", "%2F%2Fevil.com/|", "http:/%2Fevil.com/^", "/%2Fevil.com\"", "/%2F/evil.com/{}", "/a/..%2F%2Fb^"}
 var targetPool = []string{"_blank", "_self", "foo", "_BLANK", "", "_blank ", "_top"}
 
 func genC11(t *rapid.T) *Case {
